@@ -766,6 +766,32 @@ pub struct KnownFinding {
     pub description: String,
 }
 
+static OPEN_FINDINGS: Mutex<Vec<KnownFinding>> = Mutex::new(Vec::new());
+static KNOWN_HITS: Mutex<BTreeMap<String, u64>> = Mutex::new(BTreeMap::new());
+
+/// make the open known findings of `property` available to check functions (they exclude a listed
+/// finding by construction through `known_finding_hit` and keep searching)
+pub fn load_open_findings(verif_dir: &str, property: &str) {
+    let open: Vec<KnownFinding> = load_known_findings(verif_dir).into_iter().filter(|k| k.property == property && k.status == "open").collect();
+    *OPEN_FINDINGS.lock().unwrap() = open;
+}
+
+/// true (and counted) if `signature` is listed as an open known finding
+pub fn known_finding_hit(signature: &str) -> bool {
+    let open = OPEN_FINDINGS.lock().unwrap().iter().any(|k| k.signature == signature);
+    if open {
+        *KNOWN_HITS.lock().unwrap().entry(signature.to_string()).or_default() += 1;
+    }
+    open
+}
+
+/// KNOWN-FINDING lines for everything counted so far
+pub fn known_finding_lines(property: &str) -> Vec<String> {
+    let hits = KNOWN_HITS.lock().unwrap();
+    let open = OPEN_FINDINGS.lock().unwrap();
+    hits.keys().filter_map(|sig| open.iter().find(|k| &k.signature == sig).map(|k| format!("KNOWN-FINDING: property={} {} [{}]", property, k.description, k.signature))).collect()
+}
+
 pub fn load_known_findings(verif_dir: &str) -> Vec<KnownFinding> {
     let p = format!("{verif_dir}/known_findings.json");
     match std::fs::read_to_string(&p) {
@@ -797,6 +823,7 @@ pub struct PropRun {
 
 impl PropRun {
     pub fn new(cfg: RunCfg, verif_dir: &str) -> Self {
+        load_open_findings(verif_dir, &cfg.property);
         let known = load_known_findings(verif_dir)
             .into_iter()
             .filter(|k| k.property == cfg.property)
@@ -906,6 +933,10 @@ impl PropRun {
             println!("VIOLATION property={id} replay={path}");
             println!("  suite={} message={}", f.suite, f.message.chars().take(600).collect::<String>());
         }
+        for (sig, n) in KNOWN_HITS.lock().unwrap().iter() {
+            *self.stats.known_hits.entry(sig.clone()).or_default() += n;
+        }
+        known_lines.extend(known_finding_lines(&id));
         known_lines.sort();
         known_lines.dedup();
         for l in &known_lines {
